@@ -109,11 +109,11 @@ def _shard_main(mod, prop, tier, seed, shard, nshards, out, only_case=None):
         ctx.case = i
         rng = case_rng(prop, seed, i)
         signal.signal(signal.SIGALRM, _on_alarm)
-        signal.alarm(plan.get("case_timeout_s", 120))
+        signal.alarm(plan.get("case_timeout_s", 300))
         try:
             mod.run_case(ctx, i, rng)
         except CaseTimeout:
-            ctx.note_inconclusive("case %d hit the %ds wall-clock watchdog" % (i, plan.get("case_timeout_s", 120)))
+            ctx.note_inconclusive("case %d hit the %ds wall-clock watchdog" % (i, plan.get("case_timeout_s", 300)))
             ctx.count("cases_timed_out")
         except Exception:
             ctx.violation("harness-exception", traceback.format_exc()[-1800:])
